@@ -1,4 +1,5 @@
 import BfeVerif.C32.ClassProofs
+import BfeVerif.C32.TotalProofs
 /-!
   C32 — HTTP/2 frames round-trip and malformed frames are rejected.  Property theorems only.
 
@@ -725,6 +726,60 @@ theorem C32_accept_iff (fr : Framer) (fh : FH) (p : Bytes) (hlen : p.length = fh
   constructor
   · rintro ⟨f, fr', h, hp⟩; exact C32_rules fr fr' fh p f hlen h hp
   · intro h; obtain ⟨f, hf, hp⟩ := C32_complete fr fh p hlen h; exact ⟨f, _, hf, hp⟩
+
+/-- **C32 (totality, guards explicit)**: `Checked.readFrame` is `Framer.ReadFrame` with every Go slice
+    and index expression of the read path (`buf[i]`, `p[:n]`, `p[a:b]`, `p[n:]`, `p[:len(p)-pad]` with a
+    possibly negative bound, `binary.BigEndian.Uint32/16`) as a PARTIAL operation whose failure `none` is
+    the runtime panic.  For every framer state and every byte string it does not panic, and it computes
+    exactly what the unchecked model computes: every slice access is guarded by a preceding check. -/
+theorem C32_total (fr : Framer) (inp : Bytes) : Checked.readFrame fr inp = some (readFrame fr inp) :=
+  readFrame_ok fr inp
+
+theorem C32_never_panics (fr : Framer) (inp : Bytes) : Checked.readFrame fr inp ≠ none := by
+  rw [C32_total]; exact fun h => by cases h
+
+/-- the same for each type parser alone, for ANY header/payload pair (also when `len(payload)` differs
+    from `fh.Length`, which `ReadFrame` never produces) -/
+theorem C32_total_parsers (fh : FH) (p : Bytes) : Checked.parseFrame fh p = some (parseFrame fh p) :=
+  parseFrame_ok fh p
+
+/-- and for the receiver's `ForeachSetting(Setting.Valid)` loop (`buf[:2] buf[2:6] buf[6:]`) on every
+    frame `ReadFrame` can return -/
+theorem C32_total_settings_loop (fr fr' : Framer) (inp rest : Bytes) (f : Frame)
+    (h : readFrame fr inp = (.ok f, fr', rest)) : Checked.postCheck f = some (postCheck f) := by
+  apply postCheck_ok
+  intro fh' p' hf
+  subst hf
+  unfold readFrame at h
+  cases hh : parseHeader inp with
+  | none => rw [hh] at h; simp at h
+  | some x =>
+    obtain ⟨fh, rest0⟩ := x
+    rw [hh] at h
+    simp only at h
+    split at h
+    · simp at h
+    · split at h
+      · simp at h
+      · simp only [Prod.mk.injEq] at h
+        have h1 := h.1
+        unfold acceptFrame at h1
+        cases hp : parseFrame fh (rest0.take fh.length) with
+        | error e => rw [hp] at h1; simp at h1
+        | ok f0 =>
+          rw [hp] at h1
+          simp only at h1
+          cases ho : checkFrameOrder fr fh with
+          | error e => rw [ho] at h1; simp at h1
+          | ok fr0 =>
+            rw [ho] at h1
+            simp only [Except.ok.injEq] at h1
+            subst h1
+            exact parseFrame_settings_len fh fh' _ p' hp
+
+/-- a witness that the checked operations do fail when a guard is missing: the slicing of the
+    `Value` loop on a 5-byte payload (what the dropped `len % 6` check would reach) panics. -/
+example : Checked.valueLoop 6 [0, 4, 0, 0, 0] 4 = none := by decide
 
 /-! Non-vacuity -/
 example : expectRT (.headers 3 true false 2 ⟨1, true, 200⟩ [1, 2, 3]) =
